@@ -199,7 +199,8 @@ def finish(ctx, lock_mode=False):
                 known_hits.setdefault(f["id"], f)
                 return
         h = hashlib.sha256((check + obligation + wtxt).encode()).hexdigest()[:10]
-        path = os.path.join("replays", f"{prop}-{check.replace('/', '_')}-{obligation}-{h}.json")
+        safe = lambda x: "".join(ch if ch.isalnum() or ch in "._-" else "_" for ch in x)[:80]
+        path = os.path.join("replays", f"{prop}-{safe(check)}-{safe(obligation)}-{h}.json")
         with open(os.path.join(VERIF, path), "w") as fh:
             json.dump({"property": prop, "check": check, "obligation": obligation,
                        "witness": _jsonable(witness), "replayed_natively": not unreplayed,
